@@ -6,7 +6,7 @@ import checklib
 from runners.common import replay_with
 
 # compile stages: files of one stage only depend on earlier stages and are compiled concurrently
-STAGES = [["Gen_C11.v", "Gen_C11py.v"], ["C11_base.v"],
+STAGES = [["Gen_C11.v", "Gen_C11py.v", "Gen_C11kw.v"], ["C11_base.v", "C11_keyword.v"],
           ["C11_lemmas.v", "C11_bridge_swave.v", "C11_bridge_eqm.v", "C11_pycode.v"],
           ["C11_glue.v"]]
 PROP = "C11.v"
@@ -69,6 +69,8 @@ def run(chk):
     rc, out, _ = chk.bridge("symgen_C11.py", [os.path.join(chk.build, gen)])
     if rc == 0:  # the `math`-backend code text printed by the current source, parsed back
         rc, out, _ = chk.bridge("symgen_C11py.py", [os.path.join(chk.build, "Gen_C11py.v")])
+    if rc == 0:  # keyword constructions in every order
+        rc, out, _ = chk.bridge("symgen_C11kw.py", [os.path.join(chk.build, "Gen_C11kw.v")])
     proofs_ok = False
     if rc != 0:
         chk.obligations.extend(chk.theorem_names(os.path.join(checklib.COQ_PROPS, prop)))
